@@ -247,3 +247,53 @@ func HarnessC01Conc() {
 	vndReach("joined")
 	c01Common(e, cfg, names)
 }
+
+// ---- C01.flushcancel (candidate 19): ForceFlush whose context is cancelled
+// while its marker waits for room in a full queue
+func HarnessC01FlushCancel() {
+	stopped := false
+	e := &c01Exporter{stopped: &stopped}
+	bsp := NewBatchSpanProcessor(e, WithMaxQueueSize(1), WithMaxExportBatchSize(1), WithBatchTimeout(time.Second), WithExportTimeout(0)).(*batchSpanProcessor)
+	bsp.OnEnd(c01Span("s0", true)) // accepted: the queue was empty
+	vndAssert(atomic.LoadUint32(&bsp.dropped) == 0, "first-span-accepted")
+	ctx, cancel := context.WithCancel(context.Background())
+	var wg sync.WaitGroup
+	wg.Add(1)
+	go func() {
+		defer wg.Done()
+		cancel()
+	}()
+	err := bsp.ForceFlush(ctx)
+	if err == nil {
+		vndReach("flush-nil")
+		vndAssert(e.count("s0") == 1, "spans-ended-before-flush-are-exported-when-flush-returns-nil")
+	} else {
+		vndReach("flush-error")
+	}
+	wg.Wait()
+	bsp.Shutdown(context.Background())
+	vndGhostStore(&stopped, true)
+	c01Common(e, c01Cfg{queue: 1, batch: 1}, []string{"s0"})
+}
+
+// ---- C01.flushshutdown (candidate 18): ForceFlush overlapped by Shutdown
+func HarnessC01FlushShutdown() {
+	stopped := false
+	e := &c01Exporter{stopped: &stopped}
+	bsp := NewBatchSpanProcessor(e, WithMaxQueueSize(2), WithMaxExportBatchSize(1), WithBatchTimeout(time.Second), WithExportTimeout(0)).(*batchSpanProcessor)
+	bsp.OnEnd(c01Span("s0", true))
+	var wg sync.WaitGroup
+	wg.Add(1)
+	go func() {
+		defer wg.Done()
+		bsp.Shutdown(context.Background())
+		vndGhostStore(&stopped, true)
+	}()
+	if bsp.ForceFlush(context.Background()) == nil {
+		vndReach("flush-nil")
+		vndAssert(e.count("s0") == 1, "spans-ended-before-flush-are-exported-when-flush-overlapped-by-shutdown-returns-nil")
+	}
+	wg.Wait()
+	vndAssert(e.count("s0") == 1, "span-exported-once-shutdown-returned")
+	c01Common(e, c01Cfg{queue: 2, batch: 1}, []string{"s0"})
+}
